@@ -105,6 +105,13 @@ def run(prop, tier, seed, replay=None):
             recs_all += r["records"]
             stats = [x for x in r["records"] if x.get("kind") == "stats"]
             if not stats:
+                hg = [x for x in r["records"] if x.get("kind") == "hang"]
+                if hg:
+                    # the in-process watchdog ended the child at that case: go on behind it
+                    nxt = int(hg[-1]["case"]) + 1
+                    cnt = frm + cnt - nxt
+                    frm = nxt
+                    continue
                 crashes.append({"rc": r["rc"], "progress": r["progress"], "log_tail": vlib.log_tail(r["log"], 40), "from": frm})
                 break
             nxt = stats[-1]["next_case"]
@@ -172,13 +179,24 @@ def run(prop, tier, seed, replay=None):
         violation_lines.append("VIOLATION property=%s replay=%s" % (prop, path))
     # hangs / fatal errors inside netpoll on generated programs are C01 (or C16) violations
     if prop in ("C01", "C16"):
+        confirmed = []
         for h in hangs[:3]:
+            # a case without progress for VERIF_HANG_S under a loaded machine is only a suspect: run it
+            # alone in a fresh process with a generous limit; only if it still does not end it is a hang
+            env = {"VERIF_SEED": str(seed), "VERIF_FROM": str(h["case"]), "VERIF_COUNT": "1", "VERIF_KNOWN": kenv, "GOGC": "800", "VERIF_HANG_S": "900",
+                   "VERIF_SIGS": os.path.join(sc, "sig-hang-%d" % h["case"])}
+            r = vlib.run_child(binary, test, env, 1200, "hangcheck-%d" % h["case"])
+            if not [x for x in r["records"] if x.get("kind") == "stats"]:
+                confirmed.append(h)
+        agg["hang_suspects_cleared_when_rerun_alone"] = len(hangs[:3]) - len(confirmed)
+        for h in confirmed:
             nviol += 1
             name = "seed%d-case%d-hang" % (seed, h["case"])
             path = vlib.save_replay(prop, name, {"engine": "lbfuzz", "test": test, "property": prop, "oracle": "hang", "case_seed": h.get("case_seed"), "case": h["case"], "seed": seed})
             violation_lines.append("VIOLATION property=%s replay=%s" % (prop, path))
-        for c in crashes[:3]:
+        for c in [c for c in crashes if c["rc"] != 7][:3]:
             # a child that died without a stats record: fatal error / killed; attribute through the progress file
+            # (rc 7 is the in-process hang watchdog, handled above)
             nviol += 1
             name = "seed%d-crash-from%d" % (seed, c["from"])
             path = vlib.save_replay(prop, name, {"engine": "lbfuzz", "test": test, "property": prop, "oracle": "fatal_or_killed", "progress": c["progress"], "rc": c["rc"], "log_tail": c["log_tail"], "seed": seed})
